@@ -123,13 +123,14 @@ func runD(c dCase) (got, want string, fault string) {
 			e := clip.NewClipperD(c.Prec)
 			e.AddPaths(c.A, clip.Subject, c.Flag)
 			e.AddPaths(c.B, clip.Clip, false)
-			var sc, so clip.PathsD
+			// solution arguments that already hold something: both engines must replace, not append
+			sc, so := clip.PathsD{{{X: 1, Y: 1}, {X: 2, Y: 2}, {X: 3, Y: 1}}}, clip.PathsD{{{X: 7, Y: 7}, {X: 8, Y: 8}}}
 			e.ExecuteOC(clip.ClipType(c.CT), clip.FillRule(c.FR), &sc, &so)
 			got = fmt.Sprint(sc, so)
 			e2 := clip.NewClipper64()
 			e2.AddPaths(q(c.A), clip.Subject, c.Flag)
 			e2.AddPaths(q(c.B), clip.Clip, false)
-			var c64, o64 clip.Paths64
+			c64, o64 := clip.Paths64{{{X: 1, Y: 1}, {X: 2, Y: 2}, {X: 3, Y: 1}}}, clip.Paths64{{{X: 7, Y: 7}, {X: 8, Y: 8}}}
 			e2.ExecuteOC(clip.ClipType(c.CT), clip.FillRule(c.FR), &c64, &o64)
 			want = fmt.Sprint(u(c64), u(o64))
 		case "BooleanOpPolyTreeD":
